@@ -51,5 +51,11 @@ def run(ctx):
                 "sat_count, pick_cube*) to the sequential type: the item of the same name with the parameters in order.")
     nd = eeval.check_mt_delegations(ctx, F)
     ctx.floor("E-WRAP.delegate", "forwarding methods of the MT function types", nd, 15)
+    ctx.explain("E-LIN.rcconst: every comparison of a value derived from a reference count (load_rc, release, fetch_sub, the "
+                "terminal store's atomic load) with an integer constant in the manager crates and arcslab is one of the 11 "
+                "reviewed thresholds (== / != 1: only the unique table holds the node; != 2 in try_remove_node: the table and the "
+                "reference being released).")
+    nr = elin.check_rc_thresholds(ctx, F)
+    ctx.floor("E-LIN.rcconst", "reference-count comparisons inventoried", nr, 11)
     ctx.not_decided = ("equivalence to a sequential execution over schedules, lost updates in the lock-free lists, "
                        "deadlock freedom beyond lock order (condvar protocols): behavioural, not claimed")
